@@ -63,6 +63,7 @@ func (x *expander) expr(e *Expr) *Expr {
 		return nil
 	}
 	n := *e
+	n.orig = e
 	switch e.Op {
 	case "str":
 		n.Sid = x.str(e.S)
@@ -185,6 +186,14 @@ var arithCoq = map[string]string{"+": "AAdd", "-": "ASub", "*": "AMul", "/": "AD
 var bitCoq = map[string]string{"&": "BAnd", "|": "BOr", "^": "BXor", "<<": "BShl", ">>": "BShr"}
 var cmpCoq = map[string]string{"<": "CLt", ">": "CGt", "<=": "CLe", ">=": "CGe", "==": "CEq", "!=": "CNe"}
 
+func exprsCoqS(es []*Expr, sf bool) string {
+	s := "XNil"
+	for i := len(es) - 1; i >= 0; i-- {
+		s = app("XCons", es[i].coq(sf), s)
+	}
+	return s
+}
+
 func exprsCoq(es []*Expr) string {
 	s := "XNil"
 	for i := len(es) - 1; i >= 0; i-- {
@@ -269,51 +278,71 @@ func (c *Core) SetCmpTyped(flags []bool) bool {
 		} else {
 			n.Typed = -1
 		}
+		if n.orig != nil {
+			n.orig.Typed = n.Typed
+		}
 	}
 	return true
 }
 
 // Coq renders a core expression.
-func (e *Expr) Coq() string {
+func (e *Expr) Coq() string { return e.coq(false) }
+
+// coq renders a core expression (surface=false: Pid/Sid are table indices) or a
+// surface expression (surface=true: patterns carry their surface id, string
+// literals no index; coq/Lang/Expand.v numbers them).
+func (e *Expr) coq(sf bool) string {
+	pid := func() string {
+		if sf {
+			return n(e.Pat.Spid)
+		}
+		return n(e.Pat.Pid)
+	}
 	switch e.Op {
 	case "int":
 		return app("EInt", vlib.Z(e.I))
 	case "float":
 		return app("EFloat", vlib.N(FloatBits(e.F)))
 	case "str":
-		return app("EStr", n(e.Sid), CoqBytes(e.S))
+		sid := e.Sid
+		if sf {
+			sid = 0
+		}
+		return app("EStr", n(sid), CoqBytes(e.S))
 	case "cap":
-		return app("ECap", n(e.Pat.Pid), n(e.Grp), e.Ty.Coq())
+		return app("ECap", pid(), n(e.Grp), e.Ty.Coq())
 	case "conv":
-		return app("EConv", e.From.Coq(), e.Ty.Coq(), e.A.Coq())
+		return app("EConv", e.From.Coq(), e.Ty.Coq(), e.A.coq(sf))
 	case "arith":
-		return app("EArith", arithCoq[e.Sym], e.Ty.Coq(), e.A.Coq(), e.B.Coq())
+		return app("EArith", arithCoq[e.Sym], e.Ty.Coq(), e.A.coq(sf), e.B.coq(sf))
 	case "bit":
-		return app("EBit", bitCoq[e.Sym], e.A.Coq(), e.B.Coq())
+		return app("EBit", bitCoq[e.Sym], e.A.coq(sf), e.B.coq(sf))
 	case "neg":
-		return app("ENeg", e.A.Coq())
+		return app("ENeg", e.A.coq(sf))
 	case "cmp":
-		return app("ECmp", cmpCoq[e.Sym], e.CT.Coq(), vlib.Bool(e.cmpTyped()), e.A.Coq(), e.B.Coq())
+		return app("ECmp", cmpCoq[e.Sym], e.CT.Coq(), vlib.Bool(e.cmpTyped()), e.A.coq(sf), e.B.coq(sf))
 	case "and":
-		return app("EAnd", e.A.Coq(), e.B.Coq())
+		return app("EAnd", e.A.coq(sf), e.B.coq(sf))
 	case "or":
-		return app("EOr", e.A.Coq(), e.B.Coq())
+		return app("EOr", e.A.coq(sf), e.B.coq(sf))
 	case "match":
-		return app("EMatch", n(e.Pat.Pid))
+		return app("EMatch", pid())
 	case "smatch":
-		return app("ESMatch", vlib.Bool(e.Neg), e.A.Coq(), n(e.Pat.Pid))
+		return app("ESMatch", vlib.Bool(e.Neg), e.A.coq(sf), pid())
 	case "get":
-		return app("EGet", n(e.M.Idx), exprsCoq(e.Keys))
+		return app("EGet", n(e.M.Idx), exprsCoqS(e.Keys, sf))
+	case "incv":
+		return app("EIncr", vlib.Bool(e.Neg), n(e.M.Idx), exprsCoqS(e.Keys, sf))
 	case "len":
-		return app("ELen", e.A.Coq())
+		return app("ELen", e.A.coq(sf))
 	case "tolower":
-		return app("ETolower", e.A.Coq())
+		return app("ETolower", e.A.coq(sf))
 	case "strtol":
-		return app("EStrtol", e.A.Coq(), e.B.Coq())
+		return app("EStrtol", e.A.coq(sf), e.B.coq(sf))
 	case "subst":
-		return app("ESubst", e.A.Coq(), e.B.Coq(), e.C.Coq())
+		return app("ESubst", e.A.coq(sf), e.B.coq(sf), e.C.coq(sf))
 	case "rsubst":
-		return app("ERsubst", n(e.Pat.Pid), e.B.Coq(), e.C.Coq())
+		return app("ERsubst", pid(), e.B.coq(sf), e.C.coq(sf))
 	case "timestamp":
 		return "ETimestamp"
 	case "getfilename":
@@ -331,31 +360,37 @@ func blockCoq(ss []*Stmt) string {
 }
 
 // Coq renders a core statement.
-func (s *Stmt) Coq() string {
+func (s *Stmt) Coq() string { return s.coq(false) }
+
+func (s *Stmt) coq(sf bool) string {
 	switch s.Op {
 	case "inc":
-		return app("SInc", n(s.M.Idx), exprsCoq(s.Keys))
+		return app("SInc", n(s.M.Idx), exprsCoqS(s.Keys, sf))
 	case "dec":
-		return app("SDec", n(s.M.Idx), exprsCoq(s.Keys))
+		return app("SDec", n(s.M.Idx), exprsCoqS(s.Keys, sf))
 	case "set":
-		return app("SSet", s.Ty.Coq(), n(s.M.Idx), exprsCoq(s.Keys), s.E.Coq())
+		return app("SSet", s.Ty.Coq(), n(s.M.Idx), exprsCoqS(s.Keys, sf), s.E.coq(sf))
 	case "add":
-		return app("SAddTo", s.Ty.Coq(), n(s.M.Idx), exprsCoq(s.Keys), s.E.Coq())
+		return app("SAddTo", s.Ty.Coq(), n(s.M.Idx), exprsCoqS(s.Keys, sf), s.E.coq(sf))
 	case "settime":
-		return app("SSettime", s.E.Coq())
+		return app("SSettime", s.E.coq(sf))
 	case "strptime":
-		return app("SStrptime", s.E.Coq(), n(s.Sid), CoqBytes(s.S))
+		sid := s.Sid
+		if sf {
+			sid = 0
+		}
+		return app("SStrptime", s.E.coq(sf), n(sid), CoqBytes(s.S))
 	case "cond":
 		if s.HasElse {
-			return app("SCondElse", s.E.Coq(), blockCoq(s.Then), blockCoq(s.Else))
+			return app("SCondElse", s.E.coq(sf), blockCoq(s.Then), blockCoq(s.Else))
 		}
-		return app("SCond", s.E.Coq(), blockCoq(s.Then))
+		return app("SCond", s.E.coq(sf), blockCoq(s.Then))
 	case "otherwise":
 		return app("SOtherwise", blockCoq(s.Then))
 	case "del":
-		return app("SDel", n(s.M.Idx), exprsCoq(s.Keys))
+		return app("SDel", n(s.M.Idx), exprsCoqS(s.Keys, sf))
 	case "expire":
-		return app("SExpire", n(s.M.Idx), exprsCoq(s.Keys), vlib.Z(s.DurNs))
+		return app("SExpire", n(s.M.Idx), exprsCoqS(s.Keys, sf), vlib.Z(s.DurNs))
 	case "stop":
 		return "SStop"
 	}
@@ -379,4 +414,96 @@ func (c *Core) Coq() string {
 		ss = append(ss, CoqBytes(s))
 	}
 	return app("mkprog", vlib.List(ds), blockCoq(c.Body), vlib.List(rs), vlib.List(ss))
+}
+
+// ---------------------------------------------------------------------------
+// Surface rendering (coq/Lang/Expand.v): decorators NOT inlined
+
+func sblockCoq(ss []*Stmt, decoIdx map[*DecoDef]int) string {
+	s := "UNil"
+	for i := len(ss) - 1; i >= 0; i-- {
+		s = app("UCons", sstmtCoq(ss[i], decoIdx), s)
+	}
+	return s
+}
+
+func sstmtCoq(s *Stmt, decoIdx map[*DecoDef]int) string {
+	switch s.Op {
+	case "cond":
+		if s.HasElse {
+			return app("UCondElse", s.E.coq(true), sblockCoq(s.Then, decoIdx), sblockCoq(s.Else, decoIdx))
+		}
+		return app("UCond", s.E.coq(true), sblockCoq(s.Then, decoIdx))
+	case "otherwise":
+		return app("UOtherwise", sblockCoq(s.Then, decoIdx))
+	case "deco":
+		return app("UDeco", n(decoIdx[s.Deco]), sblockCoq(s.Then, decoIdx))
+	case "next":
+		return "UNext"
+	}
+	return app("USimple", s.coq(true))
+}
+
+// numberSurface gives every pattern occurrence of the source its surface id.
+func (p *Program) numberSurface() []string {
+	var pats []string
+	seen := map[*PatNode]bool{}
+	var we func(e *Expr)
+	we = func(e *Expr) {
+		if e == nil {
+			return
+		}
+		switch e.Op {
+		case "match", "smatch", "rsubst":
+			if !seen[e.Pat] {
+				seen[e.Pat] = true
+				e.Pat.Spid = len(pats)
+				pats = append(pats, e.Pat.P.Text)
+			}
+		}
+		for _, k := range e.Keys {
+			we(k)
+		}
+		we(e.A)
+		we(e.B)
+		we(e.C)
+	}
+	var ws func(ss []*Stmt)
+	ws = func(ss []*Stmt) {
+		for _, s := range ss {
+			for _, k := range s.Keys {
+				we(k)
+			}
+			we(s.E)
+			ws(s.Then)
+			ws(s.Else)
+		}
+	}
+	for _, d := range p.Decos {
+		ws(d.Body)
+	}
+	ws(p.Body)
+	return pats
+}
+
+// SurfaceCoq renders the program as a term of type Lang.Expand.sprog:
+// decorator bodies, `@deco` statements and `next` are kept; Lang/Expand.v does
+// the inlining and the numbering of patterns and strings.
+func (p *Program) SurfaceCoq() string {
+	pats := p.numberSurface()
+	decoIdx := map[*DecoDef]int{}
+	var ds, bodies, ps []string
+	for i, d := range p.Decos {
+		decoIdx[d] = i
+	}
+	for _, d := range p.Decos {
+		bodies = append(bodies, sblockCoq(d.Body, decoIdx))
+	}
+	for _, m := range p.Metrics {
+		ds = append(ds, app("mkmdecl", kindCoq[m.Kind], m.Ty.Coq(), n(len(m.Keys))))
+	}
+	for _, t := range pats {
+		ps = append(ps, CoqBytes(t))
+	}
+	return app("mksprog", vlib.List(ds), vlib.List(bodies), sblockCoq(p.Body, decoIdx), vlib.List(ps))
 }
